@@ -27,6 +27,7 @@ CLAIMED = {
  "C13": ("4 (C13)", "Revision binding for every triple of module headers with 0..2 revisions in every load order (bare name, name@rev, import with/without revision-date); the file chooser findInDir/findFile over a directory model with files drawn from 11 candidate names; include == inline for every partition of eight definitions into module and two submodules (direct and nested include).", "ioutil.ReadDir is a harness directory model on the engine side; one known finding (mixed revisioned/unrevisioned name) is reported as KNOWN-FINDING"),
  "C18": ("4 (C18)", "Every sequence of 4 (thorough 5) operations over nine texts (three good, two with processing errors, four rejected in different ways) and process: after every process the error list and dump must equal the batch run of the accepted texts on a fresh set inside the same path.", "known traces of history are reported as KNOWN-FINDING"),
  "C05": ("4 (C05)", "Self-composition: the pipeline runs twice inside one path on fresh sets that differ in load order and in the iteration order of the library's maps, which the engine makes a symbolic choice (one perturbed range event per path, all permutations of maps with up to 4 entries, at any position); the outcomes (sorted duplicate-free error list, or the full dump) must be equal.", "native replay cannot choose map orders: it repeats the run 150 times"),
+ "C01": ("4 (C01)", "Every implicit run-time check of Go (nil dereference, bounds, nil-map write, type assertion, explicit panic) on every feasible path of the driven code is a solver-decided assertion, and depth/step budgets flag non-termination candidates that are confirmed natively: generic parsing of every ASCII text of 4 (thorough 5) bytes, the number/range parsers on every short string over their alphabet, a resolution universe of self- and mutually recursive groupings at any nesting, 14 kinds of augment target, include/import cycles and absent modules with read-back of everything returned, and a failed-load history. The property's 'all byte strings' is not reached: the claim is per family and bounded.", "wall-clock behaviour on large inputs is outside the technique"),
 }
 
 NOT_APPLICABLE = {
